@@ -352,7 +352,7 @@ func c17Run(c *Ctx, gen string, idx int, sc c17Script) bool {
 		if ds.Dead {
 			viol("no-nick-request", fmt.Sprintf("%s: the client never sent the expected NICK; dead state %s", what, ds.Signature))
 			CloseWatched(conn)
-			return true
+			return c.R.NumViolations() < 10
 		}
 		c.R.Inconcl(fmt.Sprintf("%s: %s not seen (%s)", Case(gen, idx), what, ds.Reason))
 		return false
@@ -366,7 +366,28 @@ func c17Run(c *Ctx, gen string, idx int, sc c17Script) bool {
 	}
 	for k := 0; k < sc.Collisions; k++ {
 		before := nCalls()
-		mc.SendLine(fmt.Sprintf(":srv 433 * %s :Nickname is already in use", req))
+		if gen == "prng" && (idx+k)%5 == 0 {
+			// the collision is reported while the client's output queue is full (the server is not reading and the
+			// application is sending): the answer is owed all the same, it goes out once there is room
+			mc.Stall(0)
+			fillDone := make(chan struct{})
+			go func() {
+				for q := 0; q < 40; q++ {
+					conn.Raw(fmt.Sprintf("PRIVMSG #elsewhere :filler %d", q))
+				}
+				close(fillDone)
+			}()
+			time.Sleep(300 * time.Microsecond)
+			mc.SendLine(fmt.Sprintf(":srv 433 * %s :Nickname is already in use", req))
+			time.Sleep(300 * time.Microsecond)
+			mc.Resume()
+			if !waitCh(fillDone) {
+				return stuck("the application's sends around a collision")
+			}
+			c.R.Count("collisions_against_a_full_output_queue", 1)
+		} else {
+			mc.SendLine(fmt.Sprintf(":srv 433 * %s :Nickname is already in use", req))
+		}
 		got, ok := nextNick()
 		if !ok {
 			return stuck(fmt.Sprintf("NICK after collision %d", k+1))
